@@ -96,8 +96,6 @@ var discardedOnPurpose = map[string]struct {
 		"validity URL, subset URL keys and integrity header names: strings produced by url.URL.String() and by the signer itself; weak spot recorded, no failing input through the public signer API is known"},
 	"bundle/signature.(*SignedSubset).Encode -> (*cbor.Encoder).EncodeMap": {1,
 		"subset-hashes map built from a Go map keyed by URL string: keys are distinct, so the duplicate-key error cannot occur"},
-	"integrityblock.(SignatureAttributesMap).cborBytes -> (*cbor.Encoder).EncodeTextString": {1,
-		"attribute names are chosen by the signer (ed25519PublicKey); a caller-supplied name that is not UTF-8 would be dropped silently — weak spot recorded in DESIGN, outside what C07 quantifies over"},
 }
 
 // erruseEntries: serializers and signers whose call trees ERRUSE covers.
